@@ -49,6 +49,15 @@ Definition resolve (n : string) : option string :=
 Definition env_of (s : session) : env :=
   flat_map (fun kv => match v_val (snd kv) with Some v => [(fst kv, v)] | None => [] end) (s_vars s) ++ global_env.
 
+(* insertion sort by name, Go's byte-wise string order *)
+Fixpoint insert_by {A} (k : string) (a : A) (l : list (string * A)) : list (string * A) :=
+  match l with
+  | [] => [(k, a)]
+  | (k', a') :: r => if String.leb k k' then (k, a) :: l else (k', a') :: insert_by k a r
+  end.
+Fixpoint sort_by {A} (l : list (string * A)) : list (string * A) :=
+  match l with [] => [] | (k, a) :: r => insert_by k a (sort_by r) end.
+
 (* ---- the interpreter of definition forms ---------------------------------------------------------- *)
 
 Definition unmodelled {A} : res A := Err EUnmodelled.
@@ -149,6 +158,63 @@ Definition exec (s : session) (form : obj) : res session :=
             end
         | _ => Err EType
         end
+      else if (h =? "defflavor")%string then
+        (* pkg/flavors/defflavor.go, restricted to flavors without components and to the three blanket options and
+           the documentation; the defaults are evaluated now; the flavor is also the value of the variable of its name *)
+        match args with
+        | Sym n :: ivf :: Nil :: opts =>
+            match resolve n, elems_of ivf with
+            | Some name, Some ivl =>
+                bind (map_res (fun a => match a with
+                                        | Sym k => Ok (k, Nil)
+                                        | L [Sym k; df] => bind (eval (env_of s) df) (fun d => Ok (k, d))
+                                        | _ => Err EType
+                                        end) ivl) (fun ivars =>
+                bind ((fix go (l : list obj) (acc : bool * bool * bool * string) : res (bool * bool * bool * string) :=
+                         match l with
+                         | [] => Ok acc
+                         | o :: r =>
+                             let '(i, g, st, d) := acc in
+                             match o with
+                             | Sym k => if (k =? ":inittable-instance-variables")%string then go r (true, g, st, d)
+                                        else if (k =? ":gettable-instance-variables")%string then go r (i, true, st, d)
+                                        else if (k =? ":settable-instance-variables")%string then go r (i, g, true, d)
+                                        else unmodelled
+                             | L [Sym k; Str dd] => if (k =? ":documentation")%string then go r (i, g, st, dd) else unmodelled
+                             | _ => unmodelled
+                             end
+                         end) opts (false, false, false, "")) (fun o =>
+                  let '(i, g, st, d) := o in
+                  (* without instance variables the three options mean nothing (and Flavor.LoadForm does not write them) *)
+                  let some := negb (match ivars with [] => true | _ => false end) in
+                  Ok (set_var s name (mkV (Some (Flv name (sort_by ivars) (i && some) (g && some) (st && some) d)) "" false))))
+            | _, _ => unmodelled
+            end
+        | _ => unmodelled
+        end
+      else if (h =? "send")%string then
+        (* (send variable :set-v form) on a variable that holds an instance of a settable flavor *)
+        match args with
+        | [Sym vn; Sym msg; f] =>
+            match resolve vn, strip_prefix ":set-" msg with
+            | Some name, Some k =>
+                match alookup (s_vars s) name with
+                | Some (mkV (Some (Inst fl slots)) d false) =>
+                    match alookup (s_vars s) fl with
+                    | Some (mkV (Some (Flv _ _ _ _ true _)) _ _) =>
+                        bind (eval (env_of s) f) (fun v =>
+                          match slot_set slots k v with
+                          | Some slots' => Ok (set_var s name (mkV (Some (Inst fl slots')) d false))
+                          | None => Err EType
+                          end)
+                    | _ => unmodelled
+                    end
+                | _ => unmodelled
+                end
+            | _, _ => unmodelled
+            end
+        | _ => unmodelled
+        end
       else if (h =? "defun")%string then def_function false s args
       else if (h =? "defmacro")%string then def_function true s args
       else unmodelled
@@ -176,23 +242,42 @@ Definition load (forms : list obj) : session := fst (load_forms empty_session fo
 
 (* ---- the snapshot writer ---------------------------------------------------------------------------- *)
 
-(* insertion sort by name, Go's byte-wise string order *)
-Fixpoint insert_by {A} (k : string) (a : A) (l : list (string * A)) : list (string * A) :=
-  match l with
-  | [] => [(k, a)]
-  | (k', a') :: r => if String.leb k k' then (k, a) :: l else (k', a') :: insert_by k a r
-  end.
-Fixpoint sort_by {A} (l : list (string * A)) : list (string * A) :=
-  match l with [] => [] | (k, a) :: r => insert_by k a (sort_by r) end.
-
 (* snapshot.go:254 ppValue and what pp.buildNode makes of the value: a non-empty list is quoted; a hash table and
    a lambda are written as their load forms; everything else, symbols included, is written as it is *)
-Definition pp_value (v : obj) : res obj :=
+(* snapshot.go ppInstance: a flavor instance is written as (let ((inst (make-instance 'f))) (setf (slot-value inst 'v)
+   VALUE) ... inst) with every instance variable (sorted by name), and every VALUE goes through ppValue again (lists
+   quoted, nested instances as nested forms, flavors as find-flavor forms); a flavor is written (find-flavor "name") *)
+Fixpoint pp_value (v : obj) : res obj :=
   match v with
   | L _ | Dot _ _ => Ok (quote v)
   | Hash _ | Lam _ _ _ => load_form v
+  | Inst f slots =>
+      bind ((fix go (l : list (string * obj)) : res (list obj) :=
+               match l with
+               | [] => Ok []
+               | (k, w) :: r =>
+                   bind (pp_value w) (fun fw => bind (go r) (fun fs =>
+                     Ok (L [Sym "setf"; L [Sym "slot-value"; Sym "inst"; quote (Sym k)]; fw] :: fs)))
+               end) slots)
+           (fun setfs => Ok (L ([Sym "let"; L [L [Sym "inst"; L [Sym "make-instance"; quote (Sym f)]]]] ++ setfs ++ [Sym "inst"])))
+  | Flv n _ _ _ _ _ => Ok (L [Sym "find-flavor"; Str n])
   | Opaque _ => Err ENotReadable
   | _ => Ok v
+  end.
+
+(* flavor.go:473 Flavor.LoadForm for a flavor without components: (defflavor name (v (w default) ...) () options...);
+   the options are written only when the flavor has instance variables, in the order inittable, gettable, settable,
+   documentation; the default values are written as they are (evaluated, unquoted) *)
+Definition flavor_form (n : string) (ivars : list (string * obj)) (init get set : bool) (doc : string) : obj :=
+  L ([Sym "defflavor"; Sym n; mkL (map (fun kv => match snd kv with Nil => Sym (fst kv) | d => L [Sym (fst kv); d] end) ivars); Nil]
+     ++ (if init && negb (match ivars with [] => true | _ => false end) then [Sym ":inittable-instance-variables"] else [])
+     ++ (if get && negb (match ivars with [] => true | _ => false end) then [Sym ":gettable-instance-variables"] else [])
+     ++ (if set && negb (match ivars with [] => true | _ => false end) then [Sym ":settable-instance-variables"] else [])
+     ++ (if (doc =? "")%string then [] else [L [Sym ":documentation"; Str doc]])).
+Definition flavor_forms (kv : string * vrec) : list obj :=
+  match kv with
+  | (_, mkV (Some (Flv n ivars i g st d)) _ false) => [flavor_form n ivars i g st d]
+  | _ => []
   end.
 
 Definition const_forms (kv : string * vrec) : list obj :=
@@ -220,8 +305,10 @@ Definition fun_form (kv : string * frec) : obj :=
       L ([Sym (if macro then "defmacro" else "defun"); Sym n; mkL ll] ++ (if (d =? "")%string then [] else [Str d]) ++ body)
   end.
 
+(* pkg/gi/snapshot.go AppendSnapshot: constants, flavors, variables, functions *)
 Definition snapshot (s : session) : list obj :=
-  flat_map const_forms (sort_by (s_vars s)) ++ flat_map var_forms (sort_by (s_vars s)) ++ map fun_form (sort_by (s_funs s)).
+  flat_map const_forms (sort_by (s_vars s)) ++ flat_map flavor_forms (sort_by (s_vars s))
+  ++ flat_map var_forms (sort_by (s_vars s)) ++ map fun_form (sort_by (s_funs s)).
 
 (* the session rebuilt from its snapshot, and the snapshot of that *)
 Definition reload_session (s : session) : session := load (snapshot s).
